@@ -218,6 +218,8 @@ class HDict(HObjBase):
     def clone(self):
         d = HDict(self.entries, self.each, self.sym)
         d.default_factory = self.default_factory
+        if getattr(self, "is_counter", False):
+            d.is_counter = True
         if hasattr(self, "symkeys"):
             d.symkeys = dict(self.symkeys)
         if hasattr(self, "shared"):
